@@ -67,7 +67,8 @@ CFG = {
                   "ROUND 4: Props.C16Obj over Model.WrapObj (text.SoftwrapScanner as an OBJECT: fields stored where text.go stores them, the placement of s.state = state read from the "
                   "regenerated facts) - plain_scanner_object_refines / src_scanner_is_value_model (one Scan and the whole iteration of the object = Model.Wrap.scan / plainLines, every oracle), "
                   "scan_state_is_function_of_consumed_text (at every Scan boundary (rest, state) lies on the segmenter's own path chain o k base ini from a point where the state was -1: "
-                  "independent of the width and of which Scan call deferred a segment; no oracle hypothesis), deferred_segment_leaves_fields; Witness.C16StateEarly (the store before the early "
+                  "independent of the width and of which Scan call deferred a segment; no oracle hypothesis), scan_state_independent_of_width (two scanners of different widths that split no long word "
+                  "hold the same state whenever the same non-empty text is left; OracleOK only), scan_keeps_path_or_resets, deferred_segment_leaves_fields; Witness.C16StateEarly (the store before the early "
                   "return leaves the path and changes the lines). Props.C16DrawAll: text_draw_exactly_the_lines (scanner result explicit, every Max.Width), rich_draw_wide_grapheme_exception / "
                   "text_draw_single_grapheme_row (the single grapheme wider than Max.Width - the exception of the property text - is drawn at column 0 of its row), wide_grapheme_at_width_one. "
                   "The soft-wrap Draw loops are now tied by execution: Props.C14Body runs the regenerated bodies of both drawSoftwrap / findContainerSize and proves them equal to Layout.drawText. "
